@@ -49,7 +49,7 @@ def main(args):
                     continue
                 t0 = time.time()
                 env = dict(os.environ, WDSIM_SRC=os.path.join(dest, "src"), WDSIM_NO_EVIDENCE="1", WDSIM_REPLAY_DIR=os.path.join(dest, "replays"))
-                r = subprocess.run([sys.executable, os.path.join(runner.VERIF, "check"), prop, "--budget", budget], capture_output=True, text=True, env=env, timeout=1800)
+                r = subprocess.run([sys.executable, os.path.join(runner.VERIF, "check"), prop, "--budget", budget], capture_output=True, text=True, errors="replace", env=env, timeout=1800)
                 caught = r.returncode == 1 and "VIOLATION property=" in r.stdout
                 sigs = [ln.strip() for ln in r.stdout.splitlines() if ln.strip().startswith("signature=")]
                 results[f"{name}/{prop}"] = {"caught": caught, "exit": r.returncode, "t": round(time.time() - t0, 1), "signatures": [s[:160] for s in sigs[:3]]}
